@@ -701,6 +701,27 @@ func genC14(tier string, r *core.Rand) Plan {
 		}
 	}
 
+	// ---- backlog: more ARQ frames than the library queues (4096) arrive while
+	// the application is busy elsewhere; it comes back well within a minute
+	if nConn > 0 && len(t.Session) > 0 && r.Chance(0.004) {
+		e := Ev{Kind: "arq", Size: r.Range(1, 3), Seed: r.Intn(1 << 20), DelayUs: r.Intn(50_000),
+			Rep: core.Choice(r, []int{4090, 4096, 4097, 4100, 4500, 6000})}
+		t.Session[0] = append([]Ev{e}, t.Session[0]...)
+		rd.StartDelayUs = r.Range(1_000_000, 20_000_000)
+		rd.ThinkUs = []int{0}
+		for i, st := range p.Steps {
+			if st.Op == "dial" || st.Op == "accept" {
+				for i+1 < len(p.Steps) && (p.Steps[i+1].Op == "dial" || p.Steps[i+1].Op == "accept") {
+					i++ // the first attempt fails
+				}
+				rest := append([]Step{{Op: "sleep", DelayUs: 40_000_000}}, p.Steps[i+1:]...)
+				p.Steps = append(p.Steps[:i+1:i+1], rest...)
+				break
+			}
+		}
+		g.big = true
+	}
+
 	// ---- links
 	p.Link = pipe.Plan{AB: g.dir(g.big), BA: g.dir(g.big)}
 	p.DataLink = pipe.Plan{AB: g.dir(g.big), BA: g.dir(g.big)}
